@@ -42,6 +42,11 @@ CHECKS = {
          'For every configuration of the alphabet the integer mode counts must be reproducible by some assignment of near-edge shells, and the weighted sums (power, k, Legendre) must match within a float32 error bound; counts must be identical for every thread count and every virtual schedule, and per-thread accumulator rows must be private.',
          'reference enumerates the full n1d^3 mesh with fftfreq wavenumbers in float64; on-edge shells may fall either side',
          'DESIGN.md 4/C08'),
+ 'C10': ('model_checking',
+         'exhaustive enumeration of host/particle table sizes x tracer subsets x thread counts: compiled with real threads (bitwise vs one thread) + interpreted twins of gen_gals/gen_cent/gen_sats/fast_concatenate/_searchsorted_parallel with dynamic partial-order reduction (pairwise Bernstein independence of prange bodies), uninitialised-read and every-output-written checks, and real execution of all n! body orders for Nthread <= 4',
+         'For every (H, P) in the size alphabet (0, 1, fewer than threads, not divisible by threads) and every tracer subset the catalogue is bitwise identical for Nthread 1..16; the twins show that the per-thread bodies of every parallel region are pairwise independent (so every interleaving is the same Mazurkiewicz trace), that no output element is left unwritten or read before written, for virtual thread counts up to 40.',
+         'Bernstein independence => schedule independence; twin vs compiled within 4 ulp (fastmath), integers exact',
+         'DESIGN.md 3.3, 4/C10'),
  'C11': ('exploration',
          'kernel x boundary-input alphabet, every case executed as interpreted twin (numpy IndexError == numba out-of-bounds) and as compiled kernel in a NUMBA_BOUNDSCHECK=1 process',
          'Full product per kernel of empty/single/zero-particle/one-cell-thick/boundary/out-of-range inputs inside the documented preconditions; any IndexError (twin) or IndexError/SystemError (bounds-checked build) is a violation; worker crashes are isolated and reported.',
